@@ -144,6 +144,22 @@ Definition glob_error_masked (inv : bool) (i : ru_in) : Prop :=
   inv = false /\ 0 < ru_glob_err i /\ ru_nfailed i = 0 /\
   (ru_draining i = true \/ 0 < ru_npending i \/ 0 < ru_miss_targets i \/ 0 < ru_miss_dirs i).
 
+Lemma failed_clause_b : forall inv a d p t td e : bool,
+  ((inv || a || (negb a && negb d && negb p && negb t && negb td && e)) = true
+     <-> (a = true \/ e = true \/ inv = true))
+  <-> ~ (inv = false /\ e = true /\ a = false /\ (d = true \/ p = true \/ t = true \/ td = true)).
+Proof.
+  intros inv a d p t td e.
+  destruct inv; [cbn; intuition congruence|].
+  destruct a; [cbn; intuition congruence|].
+  destruct e; [|cbn; rewrite !andb_false_r; intuition congruence].
+  destruct d, p, t, td; cbn; intuition congruence.
+Qed.
+
+Lemma pending_clause_b : forall inv d p : bool,
+  inv = false -> ((negb inv && (negb d && p)) = true <-> d = false /\ p = true).
+Proof. intros inv d p ->. destruct d, p; cbn; intuition congruence. Qed.
+
 Lemma as_stated_iff_not_masked : forall inv i,
   exit_status_as_stated inv i <-> ~ glob_error_masked inv i.
 Proof.
@@ -152,13 +168,14 @@ Proof.
   assert (Hp : has_bit (serve_rc inv i) rc_PENDING
                = negb inv && (negb (ru_draining i) && (0 <? ru_npending i))).
   { destruct inv; [reflexivity|]. apply pending_bit_exact. }
-  rewrite Hp. clear Hp. unfold nothing_wrong, glob_check_reached.
-  rewrite <- !ltb0_true, <- !ltb0_false.
-  destruct i as [nf dr np mt md gw ge].
-  cbn [ru_nfailed ru_draining ru_npending ru_miss_targets ru_miss_dirs ru_glob_warn ru_glob_err].
-  rewrite !eq_true_is, !eq_false_is.
-  destruct inv, (0 <? nf), dr, (0 <? np), (0 <? mt), (0 <? md), (0 <? gw), (0 <? ge);
-    cbn; tauto.
+  rewrite Hp. clear Hp. unfold glob_check_reached.
+  rewrite <- !ltb0_true, <- (ltb0_false (ru_nfailed i)).
+  pose proof (failed_clause_b inv (0 <? ru_nfailed i) (ru_draining i) (0 <? ru_npending i)
+                (0 <? ru_miss_targets i) (0 <? ru_miss_dirs i) (0 <? ru_glob_err i)) as H1.
+  pose proof (pending_clause_b inv (ru_draining i) (0 <? ru_npending i)) as H2.
+  split.
+  - intros [H _]. apply H1. exact H.
+  - intros H. split; [apply H1; exact H|]. split; [exact H2|tauto].
 Qed.
 
 (* D7: the literal reading fails on the faithful model. *)
@@ -267,11 +284,15 @@ Lemma count_by_key {A} (key : A -> N) (ks : list N) (l : list A) :
   fold_right Nat.add 0%nat (map (fun k => length (filter (fun x => key x =? k) l)) ks) = length l.
 Proof.
   intros Hn. induction l as [|a l IH]; intros Hk.
-  - cbn. induction ks; cbn; auto. apply IHks. now inversion Hn.
-  - cbn [length]. rewrite <- IH by (intros x Hx; apply Hk; now right).
-    rewrite <- (count_one ks (key a) Hn (Hk a (or_introl eq_refl))).
-    clear IH Hk Hn. induction ks as [|k ks IHk]; cbn [map fold_right]; [reflexivity|].
-    cbn [filter]. destruct (key a =? k); cbn [length]; lia.
+  - cbn. clear Hn Hk. induction ks as [|k ks IHk]; cbn; auto.
+  - assert (E : forall ks',
+      fold_right Nat.add 0%nat (map (fun k => length (filter (fun x => key x =? k) (a :: l))) ks')
+      = Nat.add (fold_right Nat.add 0%nat (map (fun k' => if key a =? k' then 1%nat else 0%nat) ks'))
+                (fold_right Nat.add 0%nat (map (fun k => length (filter (fun x => key x =? k) l)) ks'))).
+    { induction ks' as [|k ks' IHk]; cbn [map fold_right]; [reflexivity|].
+      rewrite IHk. cbn [filter]. destruct (key a =? k); cbn [length]; lia. }
+    rewrite E, IH by (intros x Hx; apply Hk; now right).
+    rewrite (count_one ks (key a) Hn (Hk a (or_introl eq_refl))). reflexivity.
 Qed.
 
 (* ------------------------------------------------------------------------------------------ *)
@@ -284,6 +305,9 @@ Section Walk.
 
   Definition ids (l : list (N * cand)) : list N := map fst l.
 
+  Lemma Bfun_fun d c c' : In (d, c) B -> In (d, c') B -> c = c'.
+  Proof. apply NoDup_map_fst_fun. exact Bfun. Qed.
+
   (* d is n BLOCK_STEP edges below a seed row *)
   Fixpoint depth (n : nat) (d : N) : Prop :=
     match n with
@@ -295,13 +319,13 @@ Section Walk.
   Proof.
     induction n as [|n IH]; destruct m as [|m]; cbn; intros d H1 H2; auto.
     - destruct H1 as [c [Hc Hs]], H2 as [c' [Hc' [Hs' _]]].
-      assert (c = c') by (eapply NoDup_map_fst_fun; eauto). subst.
+      assert (c = c') by (eapply Bfun_fun; eassumption). subst.
       unfold is_seed in *. cbn in *. congruence.
     - destruct H2 as [c [Hc Hs]], H1 as [c' [Hc' [Hs' _]]].
-      assert (c = c') by (eapply NoDup_map_fst_fun; eauto). subst.
+      assert (c = c') by (eapply Bfun_fun; eassumption). subst.
       unfold is_seed in *. cbn in *. congruence.
     - destruct H1 as [c [Hc [_ H1]]], H2 as [c' [Hc' [_ H2]]].
-      assert (c = c') by (eapply NoDup_map_fst_fun; eauto). subst.
+      assert (c = c') by (eapply Bfun_fun; eassumption). subst.
       f_equal. eapply IH; eauto.
   Qed.
 
@@ -334,7 +358,7 @@ Section Walk.
     - intros x _. apply children_nodup.
     - intros x y b _ _ Hx Hy. apply in_children in Hx. apply in_children in Hy.
       destruct Hx as [c [Hc [_ Hs]]], Hy as [c' [Hc' [_ Hs']]].
-      assert (c = c') by (eapply NoDup_map_fst_fun; eauto). subst. reflexivity.
+      assert (c = c') by (eapply Bfun_fun; eassumption). subst. reflexivity.
   Qed.
 
   Lemma wstep_depth F n :
@@ -435,31 +459,37 @@ Section Walk.
     - apply walk_incl. exact Hi.
   Qed.
 
+  Fixpoint level (k : nat) (F : list (N * cand)) : list (N * cand) :=
+    match k with O => F | S j => level j (wstep B F) end.
+
+  Lemma level_nil k : level k [] = [].
+  Proof. induction k; cbn; auto. Qed.
+
+  Lemma walk_snoc : forall k F, walk B (S k) F = walk B k F ++ level k F.
+  Proof.
+    induction k as [|k IH]; intros F.
+    - cbn. rewrite app_nil_r. reflexivity.
+    - change (walk B (S (S k)) F) with (F ++ walk B (S k) (wstep B F)).
+      rewrite IH. cbn [walk level]. rewrite app_assoc. reflexivity.
+  Qed.
+
+  Lemma level_nonempty_length : forall k F, level k F <> [] -> (k <= length (walk B k F))%nat.
+  Proof.
+    induction k as [|k IH]; intros F H; [lia|].
+    cbn [level] in H. cbn [walk]. rewrite app_length.
+    destruct F as [|f F0]; [cbn in H; rewrite level_nil in H; congruence|].
+    specialize (IH _ H). cbn [length]. lia.
+  Qed.
+
   Lemma walk_fuel_enough : forall k F n,
     NoDup (ids F) -> (forall x, In x (ids F) -> depth n x) -> incl (ids F) (ids B) ->
-    (length B < length F + k)%nat -> walk B (S k) F = walk B k F.
+    (length B < k)%nat -> walk B (S k) F = walk B k F.
   Proof.
-    induction k as [|k IH]; intros F n Hn HF Hi Hlen.
-    - (* more rows than B has, impossible *)
-      exfalso. pose proof (walk_length_bound 1 F n Hn HF Hi) as Hb. cbn in Hb.
-      rewrite app_nil_r in Hb. lia.
-    - cbn [walk]. f_equal.
-      destruct (wstep B F) as [|r F'] eqn:E.
-      + rewrite !walk_nil. reflexivity.
-      + rewrite <- E. apply (IH (wstep B F) (S n)).
-        * apply wstep_nodup. exact Hn.
-        * apply wstep_depth. exact HF.
-        * intros y Hy. rewrite ids_wstep in Hy. apply in_flat_map in Hy. destruct Hy as [z [_ Hy]].
-          apply in_children in Hy. destruct Hy as [c [Hc _]]. unfold ids. apply in_map_iff. exists (y, c). auto.
-        * pose proof (walk_length_bound (S (S k)) F n Hn HF Hi) as Hb.
-          cbn [walk] in Hb. rewrite !app_length in Hb.
-          (* every later level adds at least nothing; use the bound on F ++ wstep F *)
-          assert (Hb2 : (length F + length (wstep B F) <= length B)%nat).
-          { pose proof (walk_length_bound 2 F n Hn HF Hi) as H2. cbn in H2.
-            rewrite app_nil_r, app_length in H2. exact H2. }
-          destruct F as [|f F0].
-          -- cbn in E. discriminate.
-          -- cbn [length] in *. rewrite E. cbn [length]. lia.
+    intros k F n Hn HF Hi Hlen. rewrite walk_snoc.
+    destruct (level k F) as [|r l] eqn:E; [apply app_nil_r|].
+    exfalso. assert (H : level k F <> []) by (rewrite E; discriminate).
+    apply level_nonempty_length in H.
+    pose proof (walk_length_bound k F n Hn HF Hi). lia.
   Qed.
 End Walk.
 
@@ -562,7 +592,7 @@ Lemma cand_min_le c l : forall x, In x (c :: l) -> cand_lt x (cand_min c l) = fa
 Proof.
   revert c. induction l as [|y l IH]; intros c x Hx.
   - cbn in *. destruct Hx as [<-|[]]. unfold cand_lt. destruct c as [[k lb] s]. cbn.
-    rewrite N.ltb_irrefl, N.eqb_refl, lex_lt_irrefl, str_eqb_refl. reflexivity.
+    rewrite !N.ltb_irrefl, N.eqb_refl, lex_lt_irrefl, str_eqb_refl. reflexivity.
   - cbn [cand_min]. destruct Hx as [<-|[<-|Hx]].
     + destruct (cand_lt y c) eqn:E.
       * destruct (cand_lt c (cand_min y l)) eqn:E2; [|reflexivity].
@@ -615,14 +645,16 @@ Lemma attributed_root_kinds sn row : In row (attributed sn) -> In (c_kind (snd r
 Proof.
   intros H.
   assert (H1 : c_kind (snd row) <> K_BLOCK_STEP).
-  { revert row H. unfold attributed, attributed_of. apply walk_roots.
-    intros row Hr. unfold seeds in Hr. apply filter_In in Hr. destruct Hr as [_ Hs].
+  { apply (walk_roots (blocker_rows sn) (S (length (blocker_rows sn))) (seeds (blocker_rows sn)));
+      [|exact H].
+    intros row0 Hr. unfold seeds in Hr. apply filter_In in Hr. destruct Hr as [_ Hs].
     unfold is_seed in Hs. apply negb_true_iff in Hs. apply N.eqb_neq. exact Hs. }
   assert (H2 : exists d, In (d, snd row) (blocker_rows sn)).
-  { revert row H. unfold attributed, attributed_of. apply walk_roots_in_B.
+  { apply (walk_roots_in_B (blocker_rows sn) (S (length (blocker_rows sn))) (seeds (blocker_rows sn)));
+      [|exact H].
     intros [d c] Hr. unfold seeds in Hr. apply filter_In in Hr. exists d. tauto. }
   destruct H2 as [d Hd]. unfold blocker_rows in Hd. apply in_map_iff in Hd. destruct Hd as [u [Hu _]].
-  inversion Hu as [[_ Hc]]. pose proof (primary_kind sn u) as Hk. rewrite Hc in Hk.
+  assert (Hc : primary sn u = snd row) by congruence. pose proof (primary_kind sn u) as Hk. rewrite Hc in Hk.
   unfold all_kinds in Hk. apply in_app_iff in Hk. destruct Hk as [Hk|[Hk|[]]]; [exact Hk|congruence].
 Qed.
 
@@ -643,7 +675,7 @@ Proof.
   { unfold count_kind. rewrite <- (map_map (fun k => length (filter (fun row => c_kind (snd row) =? k) (attributed sn))) N.of_nat).
     rewrite N_of_nat_sum. f_equal.
     apply (count_by_key (fun row : N * cand => c_kind (snd row)) root_kinds (attributed sn) root_kinds_nodup).
-    intros row Hr. apply attributed_root_kinds. exact Hr. }
+    intros row Hr. apply (attributed_root_kinds sn). exact Hr. }
   rewrite Hsum. rewrite <- Nat2N.inj_add. f_equal.
   unfold cyclic_ids.
   rewrite <- (map_length fst (attributed sn)).
@@ -691,14 +723,12 @@ Proof.
   intros Hwf. unfold attributed, attributed_of.
   set (B := blocker_rows sn).
   assert (HB : NoDup (map fst B)) by (unfold B; rewrite blocker_ids; apply U_ids_nodup; exact Hwf).
-  destruct (seeds B) as [|r F] eqn:E.
-  - rewrite !walk_nil. reflexivity.
-  - rewrite <- E. apply (walk_fuel_enough B HB (S (length B)) (seeds B) 0%nat).
-    + unfold ids, seeds. apply NoDup_map_filter. exact HB.
-    + apply seeds_depth0.
-    + intros x Hx. unfold ids, seeds in *. apply in_map_iff in Hx. destruct Hx as [r0 [Hr Hin]].
-      apply filter_In in Hin. apply in_map_iff. exists r0. tauto.
-    + rewrite E. cbn [length]. lia.
+  apply (walk_fuel_enough B HB (S (length B)) (seeds B) 0%nat).
+  - unfold ids, seeds. apply NoDup_map_filter. exact HB.
+  - apply seeds_depth0.
+  - intros x Hx. unfold ids, seeds in *. apply in_map_iff in Hx. destruct Hx as [r0 [Hr Hin]].
+    apply filter_In in Hin. apply in_map_iff. exists r0. tauto.
+  - lia.
 Qed.
 
 (* ------------------------------------------------------------------------------------------ *)
